@@ -629,7 +629,7 @@ Qed.
 
 (** * 7. Refutation for composed processors, and non-vacuity examples *)
 
-Definition pfifo (t : N) (d : list nat) : pcfg := mkP t [] [] 1 d.
+Definition pfifo (t : N) (d : list nat) : pcfg := mkP t [] [] 1 d false.
 
 (** Two FIFO processors composed behind one Buffer; the second one's [process] yields once.
     Schedule: 1 arrives, is processed by the first processor, handed over (second.process(101)
@@ -656,7 +656,7 @@ Qed.
     non-suspending second processor, group-reversing single with failures) and a schedule that
     reaches quiescence. *)
 Definition ex_cfg : list lcfg :=
-  [Single (pfifo 100 [2]); Comp (mkP 0 [102%N] [] 1 [1]) (pfifo 1000 [])].
+  [Single (pfifo 100 [2]); Comp (mkP 0 [102%N] [] 1 [1] false) (pfifo 1000 [])].
 Definition ex_in : list N := [1; 2]%N.
 Definition ex_tr : list label :=
   [ L 1 (Pull (OQ (Ok 1))); L 1 (Pull (OQ (Ok 2))); L 1 (Recv 1); L 1 (ProcEnd 1); L 1 (Recv 2);
@@ -798,4 +798,92 @@ Proof.
     rewrite E1, A, !oks_app, F. rewrite <- !app_assoc.
     destruct (pushes_app_prefix p2 (done2 l) (infl (tk l) ++ oks (q1 l) ++ oks e1)) as [e2 E2].
     rewrite E2, D, HQ. rewrite <- !app_assoc. eauto.
+Qed.
+
+(** * 10. Cancel-safe class: nothing is ever dropped, at any point of any schedule; a hand-over
+    cannot be cancelled; budgeted [process] is outside the class. *)
+
+(** Every reachable state (not only the quiescent ones) of every schedule of a stream built from
+    cancel-safe layers: no item was dropped with a cancelled future. *)
+Theorem nothing_dropped_safe cs xs tr s' :
+  safe_shape cs -> run_trace (init cs xs) tr = Some s' -> lost_of s' = [].
+Proof.
+  intros S H. destruct (init_inv cs xs) as (I0 & A0 & B0).
+  destruct (run_trace_inv _ _ _ H I0) as (I & A & B).
+  apply safe_no_loss; auto. apply safe_of_shape. rewrite B, B0. exact S.
+Qed.
+
+(** In a cancel-safe layer the recv branch of Buffer's select! cannot win while the composed
+    [next()] holds an intermediate item: the model has no such step (so an implementation trace
+    showing an input received between [Hand (Ok y)] and [HandEnd y] is not a trace of the model). *)
+Theorem handover_not_cancellable_safe c l y x :
+  safe_cfg c -> tk l = TSel (NHand y) -> lstep c l (Recv x) = None.
+Proof.
+  intros S T. unfold lstep. rewrite T. destruct (inq l) as [|x' r]; [reflexivity|].
+  destruct c as [p|p1 p2]; cbn [cancellable safe_cfg] in *.
+  - now rewrite andb_false_r.
+  - now rewrite S, andb_false_r.
+Qed.
+
+(** ... and in ANY layer a step that loses something is a [Recv] taken while an item is in hand
+    whose [second.process] can suspend. *)
+Theorem loss_only_by_cancelled_handover c l a l' :
+  lstep c l a = Some l' -> lost l' <> lost l ->
+  exists x y p1 p2, a = Recv x /\ tk l = TSel (NHand y) /\ c = Comp p1 p2 /\ slowb p2 y = true
+                    /\ lost l' = lost l ++ [y].
+Proof.
+  intros H NE. unfold lstep in H.
+  destruct a as [o|x|x|r|r|y0]; destruct (tk l) as [m|x0] eqn:T; try discriminate.
+  - (* Recv *)
+    destruct (inq l) as [|x' rest]; [discriminate|].
+    destruct (N.eqb x x' && cancellable c m) eqn:E; [|discriminate].
+    injection H as <-. cbn [lost] in *. apply andb_true_iff in E as [_ Ec].
+    destruct m as [|y]; cbn [inflight] in *; [rewrite app_nil_r in NE; contradiction|].
+    destruct c as [p|p1 p2]; cbn [cancellable] in Ec; [discriminate|].
+    exists x, y, p1, p2. auto.
+  - (* ProcEnd *)
+    destruct (N.eqb x x0); [|discriminate].
+    destruct (peff (firstp c) (held1 l) x) as [[h' ps] er]. injection H as <-. cbn [lost] in NE. contradiction.
+  - (* Next *)
+    destruct m; [|discriminate].
+    destruct c; [destruct (q1 l) as [|r' rest]|destruct (q2 l) as [|r' rest]]; try discriminate;
+      (destruct (res_eqb r r'); [|discriminate]); injection H as <-; cbn [lost] in NE; contradiction.
+  - (* Hand *)
+    destruct m; [|discriminate]. destruct c; [discriminate|].
+    destruct (q1 l) as [|r' rest]; [discriminate|]. destruct (res_eqb r r'); [|discriminate].
+    destruct r'; injection H as <-; cbn [lost] in NE; contradiction.
+  - (* HandEnd *)
+    destruct m as [|y']; [discriminate|]. destruct c as [|p1 p2]; [discriminate|].
+    destruct (N.eqb y0 y'); [|discriminate].
+    destruct (peff p2 (held2 l) y0) as [[h' ps] er]. injection H as <-. cbn [lost] in NE. contradiction.
+Qed.
+
+(** A second processor whose [process] passes a budgeted tokio resource is never in the
+    cancel-safe class, whatever its yield counts. *)
+Theorem budgeted_process_is_suspending p y : bproc p = true -> slowb p y = true.
+Proof. Transparent slowb. unfold slowb. intros ->. reflexivity. Opaque slowb. Qed.
+
+Example ex_budgeted_not_safe :
+  ~ safe_shape [Comp (pfifo 100 []) (mkP 1000 [] [] 1 [] true)].
+Proof. cbn. intros [H _]. specialize (H 0%N). rewrite budgeted_process_is_suspending in H; [discriminate|reflexivity]. Qed.
+
+(** Non-vacuity of [nothing_dropped_safe] / [handover_not_cancellable_safe]: a burst released by
+    a group-reversing first processor (3 items at once) in a cancel-safe composed layer; in the
+    state after [Hand (Ok 103)] the arrival of input 4 cannot be received. *)
+Definition burst_cfg : list lcfg := [Comp (mkP 100 [] [] 3 [] false) (pfifo 1000 [])].
+Definition burst_in : list N := [1; 2; 3; 4]%N.
+Definition burst_tr : list label :=
+  [ L 0 (Pull (OQ (Ok 1))); L 0 (Recv 1); L 0 (ProcEnd 1); L 0 (Pull (OQ (Ok 2))); L 0 (Recv 2); L 0 (ProcEnd 2);
+    L 0 (Pull (OQ (Ok 3))); L 0 (Recv 3); L 0 (ProcEnd 3); L 0 (Pull (OQ (Ok 4))); L 0 (Hand (Ok 103)) ]%N.
+
+Example ex_burst_safe : safe_shape burst_cfg.
+Proof. cbn. repeat split; auto; try (intros y; apply slowb_nil). Qed.
+
+Example ex_burst_recv_rejected :
+  exists s, run_trace (init burst_cfg burst_in) burst_tr = Some s /\ lost_of s = []
+            /\ tstep s (L 0 (Recv 4%N)) = None /\ exists s', tstep s (L 0 (HandEnd 103%N)) = Some s'.
+Proof.
+  destruct (run_trace (init burst_cfg burst_in) burst_tr) as [s|] eqn:E; [|vm_compute in E; discriminate].
+  exists s. split; [reflexivity|]. vm_compute in E. injection E as <-.
+  split; [reflexivity|]. split; [vm_compute; reflexivity|]. eexists. vm_compute. reflexivity.
 Qed.
